@@ -209,6 +209,8 @@ Definition lim_reached (limit count : Z) : bool := negb (limit =? 0) && (limit <
 
 Definition last_opt {X} (l : list X) : option X :=
   match l with [] => None | x :: t => Some (last t x) end.
+Definition hd_opt {X} (l : list X) : option X :=
+  match l with [] => None | x :: _ => Some x end.
 
 (* TypeBlocks._fillna_directional_axis_1, 1-D block, row i *)
 Definition M_dir_block1 {A} (limit : Z) (st : option (bridge A)) (anyna : bool) (c : option A)
@@ -225,8 +227,11 @@ Definition M_dir_block1 {A} (limit : Z) (st : option (bridge A)) (anyna : bool) 
            ([assigned], Some (mk_bridge assigned (if inc then bc s + 1 else 0) (is_missing assigned)))
        end.
 
-(* TypeBlocks._fillna_directional_axis_1, 2-D block, row i *)
-Definition M_dir_block2 {A} (fwd : bool) (limit : Z) (st : option (bridge A)) (anyna : bool) (cs : list (option A))
+(* TypeBlocks._fillna_directional_axis_1, 2-D block, row i.
+   cf ("count from first"): which yielded slice gives the bridging count that leaves the block when walking BACKWARD --
+   false: the last yielded slice (the code as pinned: finding C14-bfill-axis1-bridge-count), true: the first one (the
+   repaired code).  The value used by the correspondence cases is extracted from the source on every run (Gen/Gen_c14.v). *)
+Definition M_dir_block2 {A} (cf : bool) (fwd : bool) (limit : Z) (st : option (bridge A)) (anyna : bool) (cs : list (option A))
     : list (option A) * option (bridge A) :=
   let src := if fwd then last cs None else hd None cs in
   if negb anyna then (cs, Some (mk_bridge src 0 (is_missing src)))
@@ -260,8 +265,8 @@ Definition M_dir_block2 {A} (fwd : bool) (limit : Z) (st : option (bridge A)) (a
           let V := map (znth None cs) T in
           let sl := M_slices_from_targets T V length fwd limit (znth false sel) in
           (apply_slices sl assigned,
-           match last_opt sl with
-           | Some s3 => range_len (fst (fst s3)) (snd (fst s3)) length    (* the LAST yielded slice, both directions *)
+           match (if fwd || negb cf then last_opt sl else hd_opt sl) with
+           | Some s3 => range_len (fst (fst s3)) (snd (fst s3)) length
            | None => bc1
            end)
       end in
@@ -270,22 +275,22 @@ Definition M_dir_block2 {A} (fwd : bool) (limit : Z) (st : option (bridge A)) (a
     let reset := reset0 || bna' in
     (assigned2, Some (mk_bridge bv' (if reset then 0 else bc2) bna')).
 
-Definition M_dir_block {A} (fwd : bool) (limit : Z) (st : option (bridge A)) (b : rblock A) :=
+Definition M_dir_block {A} (cf fwd : bool) (limit : Z) (st : option (bridge A)) (b : rblock A) :=
   match b with
   | RB1 anyna c => M_dir_block1 limit st anyna c
-  | RB2 anyna cs => M_dir_block2 fwd limit st anyna cs
+  | RB2 anyna cs => M_dir_block2 cf fwd limit st anyna cs
   end.
 
-Fixpoint M_dir_row_go {A} (fwd : bool) (limit : Z) (st : option (bridge A)) (bs : list (rblock A)) : list (list (option A)) :=
+Fixpoint M_dir_row_go {A} (cf fwd : bool) (limit : Z) (st : option (bridge A)) (bs : list (rblock A)) : list (list (option A)) :=
   match bs with
   | [] => []
-  | b :: t => let '(o, st') := M_dir_block fwd limit st b in o :: M_dir_row_go fwd limit st' t
+  | b :: t => let '(o, st') := M_dir_block cf fwd limit st b in o :: M_dir_row_go cf fwd limit st' t
   end.
 
 (* forward walks the blocks left to right; backward walks reversed(blocks) and the caller re-reverses the result *)
-Definition M_dir_row {A} (fwd : bool) (limit : Z) (bs : list (rblock A)) : list (option A) :=
-  if fwd then concat (M_dir_row_go true limit None bs)
-  else concat (rev (M_dir_row_go false limit None (rev bs))).
+Definition M_dir_row {A} (cf fwd : bool) (limit : Z) (bs : list (rblock A)) : list (option A) :=
+  if fwd then concat (M_dir_row_go cf true limit None bs)
+  else concat (rev (M_dir_row_go cf false limit None (rev bs))).
 
 (* TypeBlocks._fillna_sided_axis_1, row i; state = isna_exit_previous[i] (None before the first block = all True) *)
 Definition M_sided_block {A} (leading : bool) (v : A) (prev : bool) (b : rblock A) : list (option A) * bool :=
@@ -337,8 +342,8 @@ Definition frame_row {A} (blocks : list (block A)) (i : nat) : list (option A) :
 Definition frame_rows {A} (nrows : nat) (blocks : list (block A)) : list (list (option A)) :=
   map (frame_row blocks) (seq 0 nrows).
 
-Definition M_dir_axis1 {A} (fwd : bool) (limit : Z) (nrows : nat) (blocks : list (block A)) : list (list (option A)) :=
-  map (fun i => M_dir_row fwd limit (map (rblock_at i) blocks)) (seq 0 nrows).
+Definition M_dir_axis1 {A} (cf fwd : bool) (limit : Z) (nrows : nat) (blocks : list (block A)) : list (list (option A)) :=
+  map (fun i => M_dir_row cf fwd limit (map (rblock_at i) blocks)) (seq 0 nrows).
 
 Definition M_sided_axis1 {A} (leading : bool) (v : A) (nrows : nat) (blocks : list (block A)) : list (list (option A)) :=
   map (fun i => M_sided_row leading v (map (rblock_at i) blocks)) (seq 0 nrows).
@@ -351,14 +356,14 @@ Definition block_wf {A} (nrows : nat) (b : block A) : bool :=
   end.
 Definition frame_wf {A} (nrows : nat) (blocks : list (block A)) : bool := forallb (block_wf nrows) blocks.
 
-(* the defect of the backward walk (see Refuted/C14.v): the bridging count leaving a 2-D block is taken from the LAST
+(* the defect of the backward walk when cf = false (see Refuted/C14.v): the bridging count leaving a 2-D block is taken from the LAST
    yielded slice, but backward the block is left through its FIRST column.  The refinement holds for a row when, in
    every 2-D block, either no limit applies, or the first cell is present, or first and last yielded slice are equally long. *)
-Definition bwd_block_dom {A} (limit : Z) (b : rblock A) : bool :=
+Definition bwd_block_dom {A} (cf : bool) (limit : Z) (b : rblock A) : bool :=
   match b with
   | RB1 _ _ => true
   | RB2 _ cs =>
-      (limit =? 0) ||
+      cf || (limit =? 0) ||
       let sel := map is_missing cs in
       negb (hd false sel) ||
       let T := M_binary_transition sel in
@@ -370,7 +375,7 @@ Definition bwd_block_dom {A} (limit : Z) (b : rblock A) : bool :=
           range_len (fst (fst s0)) (snd (fst s0)) (zlen cs) =? range_len (fst (fst sN)) (snd (fst sN)) (zlen cs)
       end
   end.
-Definition bwd_dom {A} (limit : Z) (bs : list (rblock A)) : bool := forallb (bwd_block_dom limit) bs.
+Definition bwd_dom {A} (cf : bool) (limit : Z) (bs : list (rblock A)) : bool := forallb (bwd_block_dom cf limit) bs.
 
 (* ------------------------------------------------------------------ instantiation at observed values *)
 
@@ -431,5 +436,5 @@ Definition rb_ok {A} (b : rblock A) : bool :=
   end.
 Definition row_ok {A} (bs : list (rblock A)) : bool := forallb rb_ok bs.
 Definition row_cells {A} (bs : list (rblock A)) : list (option A) := concat (map rb_cells bs).
-Definition frame_bwd_dom {A} (limit : Z) (nrows : nat) (blocks : list (block A)) : bool :=
-  forallb (fun i => bwd_dom limit (map (rblock_at i) blocks)) (seq 0 nrows).
+Definition frame_bwd_dom {A} (cf : bool) (limit : Z) (nrows : nat) (blocks : list (block A)) : bool :=
+  forallb (fun i => bwd_dom cf limit (map (rblock_at i) blocks)) (seq 0 nrows).
